@@ -320,6 +320,17 @@ func (env *SpecEnv) ident(e *SExpr) Val {
 	if v, ok := env.pkgMember(env.pkg, n); ok {
 		return v
 	}
+	// a local of the function that is declared later on this path (e.g. a loop-body variable
+	// named in an invariant evaluated on loop entry): not live yet, arbitrary
+	if env.frame != nil {
+		for _, b := range env.frame.fn.Blocks {
+			for _, ins := range b.Instrs {
+				if a, ok := ins.(*ssa.Alloc); ok && a.Comment == n {
+					return env.st.freshVal(allocElem(a), "notlive_"+n)
+				}
+			}
+		}
+	}
 	env.fail("unknown identifier %q", n)
 	return nil
 }
